@@ -125,6 +125,11 @@ def imageByte (secs : List Section) (n : Nat) (flags : CopyFlags) (init : Nat â†
   | some b => b
   | none => if flags.padTarget && decide (dataEnd n flags secs â‰¤ k) then 0 else init k
 
+/-- monitor form of `NoOverlap` -/
+def noOverlapB : List Section â†’ Bool
+  | [] => true
+  | a :: rest => rest.all (fun b => b.realSize == 0 || decide (a.offset + a.realSize â‰¤ b.offset)) && noOverlapB rest
+
 /-- the destination is large enough: every section's buffer lies inside it -/
 def fitsB (n : Nat) (secs : List Section) : Bool := secs.all (fun s => decide (s.offset + s.bufSize â‰¤ n))
 
